@@ -14,7 +14,7 @@ def runRoundtrip (payload : String) : String × String × String :=
       let s : Stk := { cfg := c, xs := xs }
       let u := s.unmarshal
       let (z, merr) := marshalInto interp none (if conv == "single" then [.anys u] else u)
-      let zs : String := match z with | some z' => showVal (.stk .native z'.cfg z'.xs) | none => "Z n"
+      let zs : String := match z with | some z' => showVal (stripPol (.stk .native z'.cfg z'.xs)) | none => "Z n"
       let fix : Bool := match z with
         | some z' => showVal (upperLabels (.anys z'.unmarshal)) == showVal (upperLabels (.anys u))
         | none => false
@@ -34,7 +34,7 @@ def runAnyTrees (payload : String) : String × String × String :=
     match (parseVal (words input)).1 with
     | .anys args =>
       let (z, err) := marshalInto interp r args
-      let zs : String := match z with | some z' => showVal (.stk .native z'.cfg z'.xs) | none => "Z n"
+      let zs : String := match z with | some z' => showVal (stripPol (.stk .native z'.cfg z'.xs)) | none => "Z n"
       let neither := err.isNone && z.isNone
       let line := s!"M{errTok err} I{b01 z.isSome} X{b01 neither} Z\{{zs}} usable"
       -- the specification (C16): returns normally; an error or an initialised receiver; the result is usable
